@@ -778,6 +778,39 @@ impl std::future::Future for FlagFut {
     }
 }
 
+/// `poll_fn(|cx| { slot = cx.waker().clone(); Ready })`: hands the task's waker out without waiting.
+struct RegFut {
+    w: Arc<World>,
+    f: usize,
+}
+
+impl std::future::Future for RegFut {
+    type Output = ();
+    fn poll(self: std::pin::Pin<&mut Self>, cx: &mut std::task::Context<'_>) -> std::task::Poll<()> {
+        // the waker slot is shared with set_flag / wake_only: make the registration a visible operation
+        let _ = self.w.flags[self.f].load(Ordering::SeqCst);
+        *self.w.fwakers[self.f].get() = Some(cx.waker().clone());
+        std::task::Poll::Ready(())
+    }
+}
+
+/// Pending exactly once, registering nothing: it is polled again only if some waker handed out earlier is invoked.
+struct SuspendFut {
+    done: bool,
+}
+
+impl std::future::Future for SuspendFut {
+    type Output = ();
+    fn poll(mut self: std::pin::Pin<&mut Self>, _cx: &mut std::task::Context<'_>) -> std::task::Poll<()> {
+        if self.done {
+            std::task::Poll::Ready(())
+        } else {
+            self.done = true;
+            std::task::Poll::Pending
+        }
+    }
+}
+
 /// Logs if the future is dropped before it ran to completion (abort, or end of an abandoned execution).
 struct DropLog {
     ix: usize,
@@ -812,6 +845,14 @@ pub async fn run_async(w: Arc<World>, ix: usize, from: usize, to: usize, is_task
             }
             "await_flag" => {
                 FlagFut { w: Arc::clone(&w), f: o }.await;
+                0
+            }
+            "reg_flag" => {
+                RegFut { w: Arc::clone(&w), f: o }.await;
+                0
+            }
+            "suspend" => {
+                SuspendFut { done: false }.await;
                 0
             }
             "await_join" => {
